@@ -343,7 +343,52 @@ def check_fault_bytes(ctx, model, store, data, prefix_table, fault, encoding):
             os.remove(p)
 
 
+def exit_keeps_error(ctx, index):
+    """The error that ends a pass is the one the caller gets - also when closing the reader on the way out fails for a
+    reason of its own: here the rule of a DistinctCount check cannot even be evaluated for the number of distinct values
+    seen so far (division by zero), which makes check_at_end raise an InterfaceError."""
+    import cutplace
+    from cutplace import errors, interface
+
+    rng = ctx.rng("exit", index)
+    k = rng.randint(1, 3)
+    values = [str(v) for v in range(1, k + 1)]
+    kind = ["bad-cell", "unterminated-quote"][index % 2]
+    rows = [["D", "Format", "Delimited"], ["F", "a", "", "", "", "Integer", ""], ["F", "b", "", "", "", "Text", ""],
+            ["C", "odd rule", "DistinctCount", "a == 0 or 6 / (a - %d) > 0" % k]]
+    lines = ["%s,x" % v for v in values]
+    lines.append("oops,x" if kind == "bad-cell" else '"unterminated,x')
+    lines.extend("%d,y" % v for v in range(10, 10 + rng.randint(0, 2)))
+    text = "\r\n".join(lines) + "\r\n"
+    for mode in MODES:
+        case = {"cid_rows": rows, "text": text, "mode": mode, "what": "closing the reader on the way out fails by itself"}
+        ctx.case(case, True)
+        ctx.count("exits-with-failing-close")
+        cid = interface.Cid()
+        cid.read("<c06>", rows)
+        raised = None
+        try:
+            for _ in cutplace.rows(cid, io.StringIO(text, newline=""), on_error=mode):
+                pass
+        except errors.CutplaceError as error:
+            raised = error
+        except Exception as error:
+            raised = error
+        if kind == "unterminated-quote":
+            want = errors.DataFormatError
+        elif mode == "raise":
+            want = errors.FieldValueError
+        else:
+            continue  # complete pass: the end of the data is judged by the (odd) rule itself
+        if not isinstance(raised, want):
+            ctx.violation("C06:error-in-flight-replaced:%s" % kind, case, "the error that ended the pass was replaced by the failure of closing the reader",
+                          expected=want.__name__, observed=gen.snapshot(raised) if isinstance(raised, errors.CutplaceError) else raised)
+
+
 def run(ctx):
+    for i in range(ctx.pick(40, 1200)):
+        if ctx.mine(i):
+            exit_keeps_error(ctx, i)
     ctx.floor("conservation.judged", 200)
     ctx.floor("faults.judged", 200)
     ctx.floor("raise-vs-yield.judged", 50)
@@ -359,6 +404,12 @@ def run(ctx):
 
 def replay(ctx, case):
     import base64
+
+    if "cid_rows" in case:
+        ctx.note("regenerated by index; rerun the quick check to reproduce")
+        for i in range(40):
+            exit_keeps_error(ctx, i)
+        return
 
     model = RM.CidModel.from_json(case["cid"])
     if case.get("fault") is None:
